@@ -2,6 +2,7 @@ import ScrapliModel.Lemmas.Channel
 import ScrapliModel.Generated.Consts
 import ScrapliModel.Lemmas.GoSem
 import ScrapliModel.Generated.BodiesChannel
+import ScrapliModel.Lemmas.BodiesUtil
 /-!
 # C01 — CLI exchanges return exactly the device's output, aligned per command
 
@@ -256,5 +257,39 @@ theorem generated_processReadBuf_eq (rb : Bytes) (d : Nat) :
       by_cases hpos : i > 0
       · simp [Go.optIdx, hpos, Go.slice_from, Go.sliceOK_from prb i (by omega)]
       · simp [Go.optIdx, hpos]
+
+/-- the body of `(*Channel).processOut` as the translator renders it from the current source
+(`make` + `range` loop with indexed stores, `bytes.Split/TrimRight/Join/Trim`; `PromptPattern.
+ReplaceAll(·, nil)` and `ReturnChar` are the `Cfg` fields) never indexes out of range and computes
+`processOut`, for every configuration and every buffer -/
+theorem generated_processOut_eq (cfg : Cfg) (b : Bytes) :
+    Gen.Bodies.Channel.processOut cfg.ret cfg.stripP b cfg.strip = some (processOut cfg b) := by
+  unfold Gen.Bodies.Channel.processOut processOut
+  have h0 : (0 : Int) ≤ Go.len (splitLF b) := by simp [Go.len]
+  simp only [h0, decide_true, Bool.not_true, Bool.false_eq_true, if_false]
+  rw [Go.forRange_set_map (ρ := Bytes) rstripSpaces (splitLF b) ([] : Bytes)]
+  cases cfg.strip <;> rfl
+
+/-- the inner loop of `util.BytesRoughlyContains` (`bytesRoughlyContainsIterOutputForInputChar`) as
+translated from the current source: never out of range; finds the first occurrence of the byte and
+returns what follows it -/
+theorem generated_bytesRoughlyContainsIterOutputForInputChar_eq (c : UInt8) (out : Bytes) :
+    Gen.Bodies.Util.bytesRoughlyContainsIterOutputForInputChar c out
+      = some (match afterFirst c out with | some r => (true, r) | none => (false, out)) :=
+  iter_eq c out
+
+/-- the body of `util.BytesRoughlyContains` as translated from the current source (both `range`
+loops) never indexes out of range and computes `roughlyContains`, for all inputs -/
+theorem generated_bytesRoughlyContains_eq (input output : Bytes) :
+    Gen.Bodies.Util.bytesRoughlyContains input output = some (roughlyContains input output) := by
+  unfold Gen.Bodies.Util.bytesRoughlyContains roughlyContains Go.forRange
+  cases hi : isInfix input output
+  · have hl : (Go.len output < Go.len input) ↔ output.length < input.length := by
+      simp only [Go.len]; omega
+    by_cases h : output.length < input.length
+    · simp [hl, h]
+    · simp only [hl, h, decide_false, Bool.false_eq_true, if_false, Bool.false_or]
+      exact outer_loop input output 0
+  · simp
 
 end Scrapli.Chan.C01
